@@ -743,7 +743,7 @@ def random_cases(ctx):
                    "gen": {"seed": int(rng.integers(0, 2 ** 31)), "n": n, "style": styles[i % 4]}})
     for i in range(ctx.n(40, 300)):
         n = int(rng.integers(1, 15))
-        cs.append({"kind": "bag", "variant": "str", "frame_id": ["map", "", "odom/ü"][i % 3],
+        cs.append({"kind": "bag", "variant": "str", "frame_id": ["map", "", "odom/ü", "/map", "/robot1/odom"][i % 5],
                    "gen": {"seed": int(rng.integers(0, 2 ** 31)), "n": n, "style": ["epoch", "small"][i % 2]}})
     for i in range(ctx.n(60, 400)):
         ks = ["rmse", "mean", "median", "std", "min", "max", "sse", "μ", "a.b"]
